@@ -132,6 +132,10 @@ type e2eProc struct {
 type e2eFlow struct {
 	Req  []e2eProc `json:"request"`
 	Resp []e2eProc `json:"response"`
+	// Fan: further answering processors that hang on the same connection source as the chain's answering
+	// processor, behind it (a fan-out): the engine runs such siblings too, so the request side produces several
+	// early responses - the first one, the chain's, is the answer
+	Fan []e2eProc `json:"fan_out_of_further_answering_processors,omitempty"`
 }
 
 type e2eCase struct {
@@ -172,6 +176,27 @@ func genE2ECase() *rapid.Generator[e2eCase] {
 				Req:  append([]e2eProc{genE2EProc(false).Draw(t, "req0")}, rapid.SliceOfN(genE2EProc(true), 0, 4).Draw(t, "req")...),
 				Resp: rapid.SliceOfN(genE2EProc(false), 0, 4).Draw(t, "resp"),
 			})
+			// half of the flows whose request chain ends in an answering processor get a fan-out of further answering
+			// processors behind it: another answer, and (mostly) a copy of the first one after that
+			f := &c.Flows[len(c.Flows)-1]
+			for _, p := range f.Req {
+				if p.Kind != "gen" {
+					continue
+				}
+				if rapid.Bool().Draw(t, "fan") {
+					other := e2eProc{Kind: "gen", Status: 500 + rapid.IntRange(1, 4).Draw(t, "fan-status"), Body: "other", Headers: map[string]string{"Content-Type": "text/plain"}}
+					f.Fan = []e2eProc{other}
+					if rapid.IntRange(0, 3).Draw(t, "fan-copy") > 0 {
+						cp := p
+						cp.Headers = map[string]string{}
+						for k, v := range p.Headers {
+							cp.Headers[k] = v
+						}
+						f.Fan = append(f.Fan, cp)
+					}
+				}
+				break
+			}
 		}
 		return c
 	})
@@ -263,11 +288,35 @@ func (f e2eFlow) yaml(idx int) string {
 		sk = append(sk, k)
 		b.WriteString(p.yaml(k, "response"))
 	}
+	fan := f.Fan
+	if last := req[len(req)-1]; last.Kind != "gen" || len(req) < 2 {
+		fan = nil
+	}
+	var fk []string
+	for i, p := range fan {
+		k := fmt.Sprintf("F%d", i)
+		fk = append(fk, k)
+		b.WriteString(p.yaml(k, "request"))
+	}
 	b.WriteString("flow:\n  request:\n")
 	b.WriteString(chain(rk, req))
+	if len(fk) > 0 {
+		prev, pk := req[len(req)-2], rk[len(rk)-2]
+		for _, k := range fk {
+			if prev.Kind == "nop" {
+				b.WriteString("    - from:\n" + endProc(pk, "hit") + "      to:\n" + endProc(k, ""))
+				b.WriteString("    - from:\n" + endProc(pk, "miss") + "      to:\n" + endProc(k, ""))
+			} else {
+				b.WriteString("    - from:\n" + endProc(pk, "") + "      to:\n" + endProc(k, ""))
+			}
+		}
+	}
 	b.WriteString("  response:\n")
 	if last := req[len(req)-1]; last.Kind == "gen" {
 		b.WriteString("    - from:\n" + endProc(rk[len(rk)-1], "") + "      to:\n" + endStreamEnd)
+	}
+	for _, k := range fk {
+		b.WriteString("    - from:\n" + endProc(k, "") + "      to:\n" + endStreamEnd)
 	}
 	b.WriteString(chain(sk, f.Resp))
 	return b.String()
